@@ -162,7 +162,16 @@ func (x *Exec) callByKey(callee *types.Func, recv *Val, args []Val, e *ast.CallE
 			return []Val{x.pureCall(key, sig, recv, args)}
 		}
 	}
-	fc := x.eng.contracts[key]
+	fc := x.eng.contracts[x.cur().pkg.Types.Name()+"@"+key]
+	if fc == nil {
+		fc = x.eng.contracts[key]
+	}
+	// model variant: Key@model restates a contract for callers in another model
+	if fc != nil && !fc.Inline {
+		if v, ok := x.eng.contracts[key+"@"+x.model.Name]; ok && modelByName(fc.Model).Float != x.model.Float {
+			fc = v
+		}
+	}
 	if fc == nil {
 		if x.eng.pures[key] {
 			return []Val{x.pureCall(key, sig, recv, args)}
@@ -358,6 +367,11 @@ func (x *Exec) applyContract(fc *FuncContract, key string, sig *types.Signature,
 		names[rnames[i]] = v
 		if len(fr.resVars) == 1 {
 			names["result"] = v
+		}
+	}
+	for _, w := range fc.Witnesses {
+		if _, ok := names[w.Name]; !ok {
+			names[w.Name] = Val{T: x.sym.Fresh("wit_"+w.Name, SInt), Ty: tyInt}
 		}
 	}
 	for _, en := range fc.Ensures {
